@@ -217,3 +217,86 @@ def find_md_atom(r: Rat, loop_var: str) -> Optional[str]:
 def path_where(prog: Program, ma: MonthAnalysis, p: MonthPath, k: Optional[int] = None) -> str:
     node = p.nodes[k] if (k is not None and 0 <= k < len(p.nodes)) else (p.nodes[0] if p.nodes else ma.loop)
     return prog.loc(ma.fi, node)
+
+
+# ---------------------------------------------------------------------------
+# premise of the no-pulse paths: a direction without load carries the sentinel duration
+# ---------------------------------------------------------------------------
+
+SENTINEL_MAX = 1.0e-5  # hours; the code uses 1e-6
+
+
+def sentinel_premise(prog: Program) -> Dict[str, Tuple[bool, str, str]]:
+    """for tag in cl / hl: on every path through one month of find_peak_durations on which monthly_peak_<tag>[i] == 0,
+    is the value stored in monthly_peak_<tag>_duration[i] a constant <= SENTINEL_MAX?   -> {tag: (ok, where, detail)}"""
+    q = "ghedesigner.ground_loads.HybridLoad.find_peak_durations"
+    fi = prog.func(q)
+    loops = [n for n in fi.node.body if isinstance(n, ast.For)]
+    if len(loops) != 1 or not isinstance(loops[0].target, ast.Name):
+        raise AnalysisError(f"{q}: month loop not found")
+    loop = loops[0]
+    iv = loop.target.id
+    out: Dict[str, Tuple[bool, str, str]] = {}
+
+    def store_of(s):
+        if isinstance(s, ast.Assign) and len(s.targets) == 1 and isinstance(s.targets[0], ast.Subscript):
+            t = attr_chain(s.targets[0].value) or ""
+            if t in ("self.monthly_peak_cl_duration", "self.monthly_peak_hl_duration") and ast.unparse(s.targets[0].slice) == iv:
+                return t[len("self.monthly_peak_"):-len("_duration")]
+        return None
+
+    for tag in ("cl", "hl"):
+        class H(Hooks):
+            def on_stmt(self, s, st, eng):
+                if store_of(s) == tag:
+                    st.emit("STORE", eng.eval(s.value, st), s)
+                    return [st]
+                return None
+
+        eng = Engine(prog, fi, H(), loop_bound=1)
+        eng.slice(loop.body, lambda s, tag=tag: store_of(s) == tag)
+        st0 = State()
+        I = Rat.atom(iv)
+        st0.env[iv] = I
+        pk = Rat.atom(f"self.monthly_peak_{tag}[{I.key()}]")
+        st0.signs[pk.key()] = (pk, frozenset("0"))
+        finals = eng.run_block(loop.body, [st0])
+        n_paths, bad = 0, None
+        for st in finals:
+            ev = [e for e in st.events if e.kind == "STORE"]
+            if len(ev) != 1:
+                bad = bad or (loop, f"{len(ev)} stores into monthly_peak_{tag}_duration[{iv}] on a path")
+                continue
+            n_paths += 1
+            v = ev[0].data
+            c = float(v.const_value()) if isinstance(v, Rat) and v.is_const() else None
+            if c is None or not (0 < c <= SENTINEL_MAX):
+                shown = v.key() if hasattr(v, "key") else str(v)
+                bad = bad or (ev[0].node, f"on the path [{"; ".join(describe_trail(st)[-4:])}] with monthly_peak_{tag}[{iv}] == 0 the stored duration is {shown[:70]}, not the 1e-6 h sentinel")
+        if n_paths == 0 and bad is None:
+            raise AnalysisError(f"{q}: no path stores monthly_peak_{tag}_duration[{iv}]")
+        if bad:
+            out[tag] = (False, prog.loc(fi, bad[0]), bad[1])
+        else:
+            out[tag] = (True, prog.loc(fi, loop), f"{n_paths} path(s) with monthly_peak_{tag}[{iv}] == 0 all store a constant <= {SENTINEL_MAX} h")
+    return out
+
+
+def resolve_ite(x: Rat, st: State) -> Rat:
+    """conditional expressions that were undecided where they were evaluated, decided with what the path assumed later
+    (sound here: the conditions read only the month's input arrays, which the loop does not write)"""
+    for _ in range(6):
+        mp = {}
+        for a in x.all_atoms():
+            df = sym.ATOM_DEF.get(a)
+            if df and df[0] == "call" and df[1] == "ite" and isinstance(df[2][0], Rat):
+                c = sym.ITE_COND.get(df[2][0].key())
+                d = st.decide(c) if c is not None else None
+                if d is True:
+                    mp[a] = df[2][1]
+                elif d is False:
+                    mp[a] = df[2][2]
+        if not mp:
+            return x
+        x = x.subs(mp)
+    return x
